@@ -301,6 +301,42 @@ func FamilyCont(tier string) []*Scenario {
 		routes[name](&ps)
 		out = append(out, &Scenario{Family: "F-cont", Name: "cont-ok-route-" + name, Plans: []PlanSpec{ps}, Time: true, MaxTicks: 5})
 	}
+	// minimal versions: a passing continuous check (block or plan level) whose later run is in flight at the moment
+	// the scope fails by another route; small enough for every order; the slow twin lets time pass by default while
+	// the sequence action executes, so a run of the loop is in flight without any deviation
+	for _, lv := range []string{"block", "plan"} {
+		for _, route := range []string{"seq", "post", "def"} {
+			ps := PlanSpec{Blocks: []BlockSpec{{Seqs: okSeqs(1, 1), Conc: 1}}}
+			b := &ps.Blocks[0]
+			if lv == "block" {
+				b.Cont = ChkD(2, A())
+			} else {
+				ps.Cont = ChkD(2, A())
+			}
+			switch route {
+			case "seq":
+				b.Seqs[0].Actions[0] = A(Perm)
+			case "post":
+				if lv == "block" {
+					b.Post = Chk(A(Perm))
+				} else {
+					ps.Post = Chk(A(Perm))
+				}
+			case "def":
+				if lv == "block" {
+					b.Def = Chk(A(Perm))
+				} else {
+					ps.Def = Chk(A(Perm))
+				}
+			}
+			sc := &Scenario{Family: "F-cont", Name: fmt.Sprintf("cont-min-%s-%s", lv, route), Plans: []PlanSpec{ps}, Time: true, MaxTicks: 3}
+			out = append(out, sc)
+			tw := cloneScenario(sc)
+			tw.Name += "-slow"
+			tw.SlowPlugins = true
+			out = append(out, tw)
+		}
+	}
 	return out
 }
 
